@@ -370,3 +370,184 @@ def p_ack_after_wal_sync(sw, f):
         return ("ack-before-wal-sync", "operation acknowledged although its WAL record was not fdatasync'ed",
                 dict(pred="ack_after_wal_sync"))
     return None
+
+
+# ---- open gate: C11 (exclusive ownership) and C19 (settings/version gate) ----------------------------
+
+def _ret(f):
+    rv = f.retval
+    if isinstance(rv, VEnum):
+        return rv.concrete(), rv
+    return None, rv
+
+
+MUTATING = ("write", "rename", "unlink", "create-temp", "index-load", "sync")
+
+
+def p_lock_first(sw, f):
+    """C11: nothing but `mkdir -p` of the directories and the open of LOCK happens before try_lock;
+    a losing open returns AlreadyOpened without any further effect (in particular LOCK is not touched)"""
+    ios = [e for _, e in _io(f)]
+    tl = [k for k, e in enumerate(ios) if e["op"] == "trylock"]
+    if not tl:
+        if any(e["op"] in MUTATING or (e["op"] == "open" and e["path"][0] != "lock") for e in ios):
+            return ("work-without-lock", "the open path performs work without ever taking the directory lock", dict(pred="lock_first"))
+        return None
+    for e in ios[:tl[0]]:
+        if not (e["op"] == "mkdir" or (e["op"] == "open" and e["path"][0] == "lock")):
+            return ("work-before-lock", f"{e['op']} on {e['path'][0]} happens before the directory lock is taken", dict(pred="lock_first"))
+    if ios[tl[0]]["outcome"] != "ok":
+        code, rv = _ret(f)
+        if code != 1:
+            return ("loser-not-rejected", "try_lock failed but open did not return an error", dict(pred="lock_first"))
+        after = ios[tl[0] + 1:]
+        if after:
+            return ("loser-has-effects", f"a losing open performs {after[0]['op']} on {after[0]['path'][0]} after failing to lock",
+                    dict(pred="lock_first"))
+    return None
+
+
+def p_lock_kept(sw, f):
+    """C11: a successful open stores the LOCKED handle in the returned value (so it lives as long as it)"""
+    code, rv = _ret(f)
+    if code != 0:
+        return None
+    inner = rv.payloads[0][0]
+    lf = inner.fields[3] if hasattr(inner, "fields") and len(inner.fields) >= 5 else None
+    files = f.meta.get("files", {})
+    from exec import VOpaque as _VO
+    if not (isinstance(lf, _VO) and lf.tag == "file" and files.get(lf.data, {}).get("path") == ("lock",)):
+        return ("lock-not-kept", "the handle stored in the returned store is not the locked LOCK file", dict(pred="lock_kept"))
+    locked = [e for _, e in _io(f) if e["op"] == "trylock" and e["outcome"] == "ok"]
+    if not locked:
+        return ("open-without-lock", "open succeeded without holding the directory lock", dict(pred="lock_kept"))
+    return None
+
+
+def make_p_settings_gate(ex):
+    def p(sw, f):
+        """C19: stored version != build version or stored segment size != configured one => Err with no
+        mutating effect; creation saves the settings before recovery runs; the stored pre-creation
+        choice (not the requested one) is what the store uses"""
+        ios = [e for _, e in _io(f)]
+        code, rv = _ret(f)
+        rd = [k for k, e in enumerate(ios) if e["op"] == "read" and e["path"][0] == "settings"]
+        if not rd or ios[rd[0]]["outcome"] != "ok":
+            # first creation (settings file absent): saved atomically before index-load
+            if code == 0:
+                il = [k for k, e in enumerate(ios) if e["op"] == "index-load"]
+                rn = [k for k, e in enumerate(ios) if e["op"] == "rename" and e["path"][0] == "settings"]
+                if rd and (not rn or (il and rn[0] > il[0])):
+                    return ("settings-not-saved-first", "a new store runs recovery before its settings are durably saved",
+                            dict(pred="settings_gate"))
+            return None
+        ver, n_st, pre_st = f.meta.get("stored_version"), f.meta.get("stored_N"), f.meta.get("stored_precreated")
+        if ver is None:
+            return None  # unparsable settings: rejected by the parse error path
+        after = ios[rd[0] + 1:]
+        mism = z3.Or(ver != 4, n_st != sw.config_N)
+        if code == 0:
+            if ex.feasible(f.pc, mism):
+                return ("mismatch-accepted", "open succeeds although the stored version / segment size differs", dict(pred="settings_gate"))
+            inner = rv.payloads[0][0]
+            cm = inner.fields[2].fields[0]
+            flag = cm.fields[1].t
+            if ex.feasible(f.pc, flag != pre_st):
+                return ("precreate-not-remembered", "the store uses the requested pre-creation choice instead of the stored one",
+                        dict(pred="settings_gate"))
+        else:
+            if not ex.feasible(f.pc, z3.Not(mism)):
+                bad = [e for e in after if e["op"] in MUTATING or (e["op"] == "open" and e.get("flags", {}).get("write"))]
+                if bad:
+                    return ("rejected-open-has-effects", f"an open rejected for a settings mismatch still performs {bad[0]['op']} on "
+                            f"{bad[0]['path'][0]}", dict(pred="settings_gate"))
+        return None
+    return p
+
+
+# ---- C05 -------------------------------------------------------------------------------------------------
+
+def p_index_mutation_under_write_lock(sw, f):
+    """every mutation of the key map happens while the state WRITE lock is held (so all writes are
+    totally ordered and a read's lookup sees a state between two writes)"""
+    for e in f.trace:
+        if e["kind"] == "index-mutation":
+            if not any(l == "state" and m == "write" for (l, m) in e["locks"]):
+                return ("index-mutation-unlocked", "the key map is modified without the state write lock", dict(pred="mutation_locked"))
+    return None
+
+
+def p_single_lookup_under_read_lock(sw, f):
+    """a read performs its index lookup under the state read lock, exactly once"""
+    acq = [e for e in f.trace if e["kind"] == "acq" and e["lock"] == "state"]
+    if len(acq) != 1 or acq[0]["mode"] != "read":
+        return ("lookup-discipline", f"a read takes the state lock {len(acq)} times / not in read mode", dict(pred="single_lookup"))
+    return None
+
+
+def make_p_read_vs_unlink(writer_unlink_locksets):
+    def p(sw, f):
+        """lockset criterion: the reader opens cas/<h> holding lockset Lr; some writer unlinks blobs holding
+        Lw; if no common lock excludes the two, `lookup < overwrite-apply < unlink < open` is a feasible
+        schedule and the read of a present key fails"""
+        for e in f.trace:
+            if e["kind"] == "io" and e["op"] in ("open", "read", "read_range") and (e.get("path") or ("",))[0] == "cas":
+                lr = {l for (l, m) in e["locks"]}
+                for lw in writer_unlink_locksets:
+                    if not (lr & lw):
+                        return ("read-vs-unlink", "the blob is opened after the index lock was released: a concurrent overwrite/remove "
+                                "can unlink it in between (read of a present key fails with BlobDataMissing)", dict(pred="read_vs_unlink"))
+        return None
+    return p
+
+
+# ---- C14: one injected I/O failure ---------------------------------------------------------------------
+
+def p_returns_clean(sw, f):
+    if f.status in ("panic", "deadlock"):
+        return ("panic-on-fault", f"a failed I/O call makes the operation panic/hang: {f.note}", dict(pred="returns_clean"))
+    if f.status == "returned" and f.locks:
+        return ("lock-leak-on-fault", f"locks still held at return: {[l for l, m in f.locks]}", dict(pred="returns_clean"))
+    return None
+
+
+def make_p_no_unlink_of_referenced(ex):
+    def p(sw, f):
+        """no blob that the index references when the operation returns was unlinked by it — with or
+        without a failed call (single-thread view of 'no dangling reference')"""
+        if f.status != "returned":
+            return None
+        w = sw.iw
+        post = w.snapshot_of(f, sw.state_ref)
+        for i, e in _io(f):
+            if e["op"] == "unlink" and e["outcome"] == "ok" and e["path"][0] == "cas":
+                h = e["path"][1]
+                ref = z3.Or([z3.And(post["pk"][j], post["hk"][j] == h) for j in range(w.U)])
+                # a blob re-created by this very operation after the unlink does not count
+                later = [x for _, x in _io(f) if x["op"] == "rename" and x.get("dst", ("",))[0] == "cas"]
+                if ex.feasible(f.pc, ref) and not any(not ex.feasible(f.pc, x["dst"][1] != h) for x in later[:0]):
+                    return ("referenced-blob-unlinked", "the operation unlinks a blob that a key still references when it returns",
+                            dict(pred="no_unlink_of_referenced"))
+        return None
+    return p
+
+
+def make_p_state_consistent(ex):
+    def p(sw, f):
+        """after the operation (failed or not) the in-memory index satisfies the exactness invariant and
+        every key other than the operation's own keys is untouched"""
+        if f.status != "returned":
+            return None
+        w = sw.iw
+        post = w.snapshot_of(f, sw.state_ref)
+        inv = w.invariant(post)
+        if ex.feasible(f.pc, z3.Not(inv)):
+            return ("invariant-broken", "refcounts/stats no longer match the key map after the operation", dict(pred="state_consistent"))
+        k = getattr(sw, "op_key", None)
+        if k is not None:
+            for i in range(w.U):
+                same = z3.And(post["pk"][i] == w.pk[i], z3.Implies(w.pk[i], z3.And(post["hk"][i] == w.hk[i], post["sk"][i] == w.sk[i])))
+                if ex.feasible(f.pc, z3.And(w.keys[i] != k, z3.Not(same))):
+                    return ("other-key-changed", "a key other than the operation's own key changed", dict(pred="state_consistent"))
+        return None
+    return p
